@@ -10,7 +10,7 @@ Timer variant, within a cap on the total number of yields (see inline_suites); e
 readiness instant per selecting task - all explored; the scheduler's _random for the priority-0.5 task and the
 virtual time consumed per step - deviations) are explored with mc.engine.explore within a deviation bound.
 
-PART 2 (threaded select hub, E-thr).  Sixteen representative programs of the same grammar run with the scheduler
+PART 2 (threaded select hub, E-thr).  Twenty-one representative programs of the same grammar run with the scheduler
 thread + the select-hub thread (+ an environment thread that lets virtual time reach the fd readiness instants)
 under the controlled-thread explorer mc/thr.py, every schedule within a deviation bound.
 
@@ -85,6 +85,7 @@ OPS = {
   "Rx":  ("recv", None, "yield Recv(sock)"),
   "Rx1": ("recv", 1, "yield Recv(sock, timeout=1)"),
   "W":   ("wake", None, "schedule() every blocked/ready sibling; yield 0"),
+  "St":  ("start", None, "start() every Timer built with started=False; yield 0"),
   "C":   ("cancel", None, "cancel() every Timer; yield 0"),
   "X":   ("exit", None, "yield Exit()"),
   "!":   ("raise", None, "raise"),
@@ -97,6 +98,11 @@ OPS_NESTED_CTX = ("0", "n1", "S2", "Se0", "SN", "W", "!", "TF") + OPS_NESTED
 # sleeps whose deadline has passed / is now when the scheduler executes them, in a small context vocabulary
 OPS_PAST = ("0", "n1", "S2", "SN", "Se1", "W") + ("S0", "Sa-1", "Sa0", "Sa1")
 TIMERS_PAST = ("rec2", "slow1", "slow2")       # recurring timers whose callback takes 0 / the interval / more than the interval
+# timers built with started=False and start()ed by a task after the clock has moved
+OPS_PARK = ("0", "n1", "S2", "SN", "St")
+TIMERS_PARK = ("parked", "parkedrec", "once")
+# the epoll hub variant (Scheduler(use_epoll=True): EpollSelect over a scripted epoll object)
+OPS_EPOLL = ("0", "n1", "Se", "Se1", "Rx1", "Txs", "W")
 # socket I/O ops in a small context vocabulary
 OPS_IO = ("Tx", "Txs", "Rx", "Rx1")
 OPS_IO_CTX = ("0", "n1", "SN", "Se1", "W", "!") + OPS_IO
@@ -128,6 +134,8 @@ TIMERS = {
   "selfc":  (True, 1, "Timer(1, cb, recurring=True), cb cancels the timer on its 1st call"),
   "slow1":  (True, 2, "Timer(1, cb, recurring=True), cb takes 1 s (the interval), returns False on its 2nd call"),
   "slow2":  (True, 2, "Timer(1, cb, recurring=True), cb takes 2 s (more than the interval), returns False on its 2nd call"),
+  "parked":    (False, 1, "Timer(1, cb, started=False), start()ed later by a task"),
+  "parkedrec": (True, 2, "Timer(1, cb, recurring=True, started=False), start()ed later by a task, cb returns False on its 2nd call"),
   "nostop": (True, 2, "Timer(1, cb, recurring=True, selfStoppable=False), cb returns False, cancels on its 2nd call"),
 }
 TIMER_ORDER = ("once", "rec2", "pre", "selfc", "nostop")
@@ -221,6 +229,7 @@ class VFd (object):
   environment choices (default: everything; deviations: half, one byte, EAGAIN / one byte)."""
   def __init__ (self, w, name, ready_at):
     self.w = w; self.name = name; self.ready_at = ready_at
+    self.fd = w.new_fileno(self)
     self.rx_pos = 0
     self.tx = b""
     self.eagain = 0               # number of send() calls answered with EAGAIN
@@ -231,7 +240,7 @@ class VFd (object):
     return self.ready_at is not None and self.rx_pos < len(RX_STREAM)
   def writable (self): return True
   def errored (self): return False
-  def fileno (self): return -1
+  def fileno (self): return self.fd
   def send (self, data, flags=0):
     w = self.w
     c = w.ctx.choose(4, "send@" + self.name) if w.env_choices else 0
@@ -302,6 +311,8 @@ class World (object):
     self.exited = False
     self.abort = None
     self.horizon = False
+    self.fdmap = {}               # fileno -> object (what the scripted epoll object resolves descriptors with)
+    self.step_time = {}           # part 2: virtual seconds a given step takes ("T1.0" -> 2), fixed by the program
     self.on_sched_thread = None   # callable (part 2)
     self.fd_at = None             # part 2: readiness offsets fixed by the program instead of explored
 
@@ -311,9 +322,17 @@ class World (object):
       self.bad_keys.add(clause)
       self.bad.append((clause, what))
 
+  def new_fileno (self, obj):
+    fd = 3 + len(self.fdmap)
+    self.fdmap[fd] = obj
+    return fd
+
   def consume (self, label):
     """Environment choice: how much virtual time this step takes (0 default, DT a deviation)."""
-    if not self.env_choices: return
+    if not self.env_choices:
+      d = self.step_time.get(label)
+      if d: self.advance(d)
+      return
     if self.ctx.choose(2, "dt@" + label):
       self.advance(DT)
 
@@ -398,6 +417,8 @@ class World (object):
         r.created = self.now()
         kw = dict(recurring=recurring, scheduler=sch)
         if r.spec == "nostop": kw["selfStoppable"] = False
+        if r.spec in ("parked", "parkedrec"):
+          kw["started"] = False; r.created = None        # the deadline counts from start()
         r.obj = R.Timer(1, _make_cb(self, r), **kw)
         r.state = "timer"
         if r.spec == "pre":
@@ -424,6 +445,11 @@ class World (object):
           self.sch.schedule(o.obj)
         elif o.state == "ready":
           self.sch.schedule(o.obj)           # already runnable: must be a no-op
+    elif kind == "start":
+      for o in self.recs:
+        if o.kind == "T" and o.created is None and o.cancel_seq is None:
+          o.created = self.now()
+          o.obj.start(self.sch)
     elif kind == "cancel":
       for o in self.recs:
         if o.kind == "T":
@@ -431,7 +457,7 @@ class World (object):
           o.obj.cancel()
     self.consume(label)
     ty = self.now()
-    if kind in ("resched", "wake", "cancel"):
+    if kind in ("resched", "wake", "cancel", "start"):
       r.state = "ready"; return 0
     if kind == "num":
       r.req = ty + arg; r.state = "timed"; return arg
@@ -562,7 +588,9 @@ class World (object):
     self.trace.append((r.name, n, now))
     recurring, expect, _ = TIMERS[r.spec]
     first = "timer:" + r.spec
-    if n == 1:
+    if r.created is None:
+      self.fail("timer:fired-before-start", "%s (%s) called back although it was never started" % (r.name, TIMERS[r.spec][2]))
+    elif n == 1:
       if now < r.created + 1:
         self.fail("timed-wake-early:Timer", "%s fired at +%s, set for +%s" % (r.name, now - T0, r.created + 1 - T0))
     else:
@@ -578,7 +606,7 @@ class World (object):
     rv = None
     if r.spec in ("slow1", "slow2"):
       self.advance(1 if r.spec == "slow1" else 2)       # the callback itself takes that long
-    if r.spec in ("rec2", "slow1", "slow2") and n >= 2: rv = False
+    if r.spec in ("rec2", "slow1", "slow2", "parkedrec") and n >= 2: rv = False
     elif r.spec == "selfc":
       r.self_cancel_seq = self.seq; r.obj.cancel()
     elif r.spec == "nostop":
@@ -630,7 +658,7 @@ class World (object):
                     "was never resumed" if r.sub_done else "the sub-task never finished"))
       else:
         recurring, expect, _ = TIMERS[r.spec]
-        if r.cancel_seq is None and len(r.fires) < expect:
+        if r.cancel_seq is None and r.created is not None and len(r.fires) < expect:
           self.fail("timer:missed-fire:" + r.spec, "%s (%s) called back %d times, expected %d"
                     % (r.name, TIMERS[r.spec][2], len(r.fires), expect))
 
@@ -642,7 +670,7 @@ class World (object):
         if r.state in ("new", "ready", "timed", "again", "running"): return True
         if r.state in ("select", "recv") and (r.req is not None or r.fd.will_be_readable()): return True
         if r.state == "send": return True
-      elif r.cancel_seq is None and len(r.fires) < TIMERS[r.spec][1]:
+      elif r.cancel_seq is None and r.created is not None and len(r.fires) < TIMERS[r.spec][1]:
         return True
     return False
 
@@ -867,6 +895,45 @@ class VSelect (object):
     return self._ready(rl), [], []
 
 
+class VEpollModule (object):
+  """Stands in for the `select` module inside pox.lib.epoll_select: epoll() hands out scripted epoll objects whose
+  poll() answers from the same virtual select (inline: VSelect, threaded: the explorer's select) as the plain hub."""
+  EPOLLIN = 0x001; EPOLLPRI = 0x002; EPOLLOUT = 0x004; EPOLLERR = 0x008; EPOLLHUP = 0x010
+  EPOLLRDNORM = 0x040; EPOLLRDBAND = 0x080; EPOLLWRNORM = 0x100; EPOLLWRBAND = 0x200
+  error = OSError
+  def __init__ (self, w, select_func):
+    self.w = w; self.select_func = select_func
+  def epoll (self, *a):
+    return VEpoll(self)
+  def select (self, *a): return self.select_func(*a)
+
+
+class VEpoll (object):
+  def __init__ (self, mod):
+    self.mod = mod; self.reg = {}
+  def register (self, fd, mask):
+    if fd in self.reg: raise FileExistsError(17, "epoll: fd %r already registered" % (fd,))
+    if fd not in self.mod.w.fdmap: raise OSError(9, "epoll: bad file descriptor %r" % (fd,))
+    self.reg[fd] = mask
+  def modify (self, fd, mask):
+    if fd not in self.reg: raise FileNotFoundError(2, "epoll: fd %r not registered" % (fd,))
+    self.reg[fd] = mask
+  def unregister (self, fd):
+    if fd not in self.reg: raise FileNotFoundError(2, "epoll: fd %r not registered" % (fd,))
+    del self.reg[fd]
+  def poll (self, timeout=None, maxevents=-1):
+    m = self.mod; fdmap = m.w.fdmap
+    rl = [fdmap[fd] for fd, mask in self.reg.items() if mask & (m.EPOLLIN | m.EPOLLPRI)]
+    wl = [fdmap[fd] for fd, mask in self.reg.items() if mask & m.EPOLLOUT]
+    if timeout is not None and timeout < 0: timeout = None
+    ro, wo, xo = m.select_func(rl, wl, [], timeout)
+    ev = {}
+    for o in ro: ev[o.fileno()] = ev.get(o.fileno(), 0) | m.EPOLLIN
+    for o in wo: ev[o.fileno()] = ev.get(o.fileno(), 0) | m.EPOLLOUT
+    return sorted(ev.items())
+  def close (self): pass
+
+
 _QUIET = _QuietTraceback()
 
 def _mods ():
@@ -876,23 +943,31 @@ def _mods ():
   return R, U
 
 
-def run_inline (ctx, prog, twin=None):
-  from mc.env import FakePinger
+def run_inline (ctx, prog, twin=None, epoll=False):
+  from mc.env import FakePinger as _FP
   R, U = _mods()
   clock = VClockX()
   R.threading = threading; R.Thread = threading.Thread; R.Queue = queue.Queue
   R.time = clock; R.CYCLE_MAXIMUM = 1e9
   R.traceback = _QUIET
-  U.makePinger = FakePinger
   w = World(ctx, prog, R, clock.time, "inline", twin=twin)
+  class FakePinger (_FP):                         # a pinger with a descriptor number of its own
+    def __init__ (self_):
+      _FP.__init__(self_); self_.fd = w.new_fileno(self_)
+    def fileno (self_): return self_.fd
+  U.makePinger = FakePinger
   def advance (d): clock.now += d
   w.advance = advance
-  vs = VSelect(w, clock, FakePinger)
+  w.epoll = epoll
+  vs = VSelect(w, clock, _FP)
   R.select = vs
-  sch = R.Scheduler(isDefaultScheduler=True, startInThread=False, threaded_selecthub=False)
+  if epoll:
+    import pox.lib.epoll_select as ES
+    ES.select = VEpollModule(w, vs.select)
+  sch = R.Scheduler(isDefaultScheduler=True, startInThread=False, threaded_selecthub=False, use_epoll=epoll)
   R.defaultScheduler = sch
   sch._thread = threading.current_thread()        # run() below executes on "the scheduler's thread"
-  sch._selectHub._select_func = vs.select
+  if not epoll: sch._selectHub._select_func = vs.select
   sch._random = w.rand
   w.build(sch)
   try:
@@ -910,16 +985,16 @@ def run_inline (ctx, prog, twin=None):
   return w
 
 
-def run_inline_checked (ctx, prog):
+def run_inline_checked (ctx, prog, epoll=False):
   """One execution plus, for every task that raised in it, the differential twin (the same task returning
   instead of raising, same environment choices): everything the other entities did must be identical."""
-  w = run_inline(ctx, prog)
+  w = run_inline(ctx, prog, epoll=epoll)
   if not w.abort:
     for r in w.recs:
       if r.state != "raised": continue
       ctx2 = Ctx(ctx.choices())
       try:
-        w2 = run_inline(ctx2, prog, twin=r.idx)
+        w2 = run_inline(ctx2, prog, twin=r.idx, epoll=epoll)
         same = (len(ctx2.trace) == len(ctx.trace) and w2.trace == w.trace and w2.observation(r.idx) == w.observation(r.idx))
         diff = "" if same else _first_diff(w, w2, r.idx)
       except Divergence as e:
@@ -941,6 +1016,7 @@ def _first_diff (w, w2, k):
 
 
 _SPACE = None        # the program space of the suite being run (built before the pool forks)
+_EPOLL = False       # the suite being run uses the epoll hub variant
 _STRIDE = 1          # debugging (--only inline:N): every N-th program only
 
 def _violation (rep, w, replay):
@@ -965,11 +1041,11 @@ def _inline_worker (item):
         if w.ntwins: rep.extra["differential_twin_runs"] = rep.extra.get("differential_twin_runs", 0) + w.ntwins
         rep.outcome((w.observation(), tuple(k for k, _ in w.bad)))
         if w.bad:
-          _violation(rep, w, dict(part="inline", prog=_prog_to_json(prog), choices=ctx.choices()))
+          _violation(rep, w, dict(part="inline", prog=_prog_to_json(prog), choices=ctx.choices(), epoll=_EPOLL))
         elif not rep.samples and w.nsteps >= 7 and len(ctx.trace) > 4 and any(c for c in ctx.choices()):
-          rep.sample(dict(part="inline hub", program=prog_text(prog),
+          rep.sample(dict(part="inline hub" + (" (epoll)" if _EPOLL else ""), program=prog_text(prog),
                           environment=[(l, c) for l, c in ctx.labelled() if c], observed=w.text().split("\n")[1:]))
-      explore(lambda ctx, prog=prog: run_inline_checked(ctx, prog), dev_bound=dev, on_exec=on_exec)
+      explore(lambda ctx, prog=prog: run_inline_checked(ctx, prog, _EPOLL), dev_bound=dev, on_exec=on_exec)
       n += 1
   finally:
     sys.stdout, sys.stderr = old
@@ -995,7 +1071,9 @@ def inline_suites (cfg):
             ("2 entities, <=3 yields, sleeps whose deadline has passed when executed, slow timer callbacks", OPS_PAST, 2, 3, 1, 3, TIMERS_PAST),
             ("2 tasks, <=3 yields, socket Send/Recv with partial writes and short reads", OPS_IO_CTX, 2, 3, 1, 3, False),
             ("2 tasks, <=4 yields (<=2 each), every priority assignment in {1,0.5}", OPS_PRIO, 2, 4, 1, 2, False, True),
-            ("3 tasks, <=3 yields (<=1 each), every priority assignment in {1,0.5}", OPS_PRIO, 3, 3, 1, 1, False, True)]
+            ("3 tasks, <=3 yields (<=1 each), every priority assignment in {1,0.5}", OPS_PRIO, 3, 3, 1, 1, False, True),
+            ("2 entities, <=3 yields, timers built with started=False and start()ed by a task", OPS_PARK, 2, 3, 1, 3, TIMERS_PARK),
+            ("2 tasks, <=3 yields, epoll hub (use_epoll=True over a scripted epoll object)", OPS_EPOLL, 2, 3, 1, 3, False, False, dict(epoll=True))]
   return [("2 entities, <=4 yields", OPS_QUICK, 2, 4, 2),
           ("2 entities, <=6 yields (every ordered pair of scripts of <=3 yields)", OPS_QUICK, 2, 6, 0),
           ("2 entities, <=3 yields, extended vocabulary", OPS_QUICK + OPS_EXTRA, 2, 3, 1),
@@ -1006,7 +1084,9 @@ def inline_suites (cfg):
           ("2 tasks, <=3 yields, socket Send/Recv with partial writes and short reads", OPS_IO_CTX, 2, 3, 2, 3, False),
           ("2 entities, <=4 yields, sleeps whose deadline has passed when executed, slow timer callbacks", OPS_PAST, 2, 4, 2, 3, TIMERS_PAST),
           ("2 tasks, <=4 yields (<=2 each), every priority assignment in {1,0.5}", OPS_PRIO, 2, 4, 2, 2, False, True),
-          ("3 tasks, <=4 yields (<=2 each), every priority assignment in {1,0.5}", OPS_PRIO, 3, 4, 1, 2, False, True)]
+          ("3 tasks, <=4 yields (<=2 each), every priority assignment in {1,0.5}", OPS_PRIO, 3, 4, 1, 2, False, True),
+          ("2 entities, <=4 yields, timers built with started=False and start()ed by a task", OPS_PARK, 2, 4, 2, 3, TIMERS_PARK),
+          ("2 tasks, <=4 yields, epoll hub (use_epoll=True over a scripted epoll object)", OPS_EPOLL, 2, 4, 2, 3, False, False, dict(epoll=True))]
 
 
 # ---------------------------------------------------------------------------------------------------
@@ -1039,6 +1119,14 @@ THR_PROGRAMS = [
   # deadlines that have passed when the scheduler executes the Sleep
   ((T("Sa-1", "S2"), T("n1", "Sa0")), {}),
   ((("T", "slow2"), T("S2")), {}),
+  # a timer built with started=False, start()ed by a task one second later
+  ((("T", "parked"), T("n1", "St")), {}),
+  # a timed wait expires while the scheduler thread is busy in a long step of another task that then asks for I/O
+  ((T("Se1", "0"), T("Se")), {"step_time": {"T1.0": 2}}),
+  # the epoll hub variant (Scheduler(use_epoll=True), EpollSelect over the scripted epoll object)
+  ((T("Se1", "0"), T("Se")), {"step_time": {"T1.0": 2}, "epoll": True}),
+  ((T("Se", "0"), T("Rx1", "n1")), {0: 0.5, "epoll": True}),
+  ((T("Txs", "Se1"), T("n1", "Se1")), {1: 1.5, "epoll": True}),
 ]
 
 
@@ -1064,7 +1152,14 @@ def run_threaded (ctx, prog, fd_at, funcs=HANDOFF, max_points=8000, keep_log=Fal
   boot()
   from mc import thr
   import pox.lib.recoco.recoco as R, pox.lib.util as U
+  # fd_at: {entity index: fd readiness offset} plus options under string keys: "epoll" (the use_epoll hub over the
+  # scripted epoll object), "step_time" ({"T1.0": seconds that step takes})
+  opts = dict((k, v) for k, v in fd_at.items() if isinstance(k, str) and not k.isdigit())
+  fd_at = dict((int(k), v) for k, v in fd_at.items() if not (isinstance(k, str) and not k.isdigit()))
+  epoll = bool(opts.get("epoll"))
   w = World(ctx, prog, R, None, "threaded", env_choices=False)
+  w.step_time = dict(opts.get("step_time") or {})
+  w.epoll = epoll
   S = thr.Sched(ctx, trace_files=("recoco/recoco.py",), trace_funcs=funcs, pending=w.pending, max_points=max_points)
   S.keep_log = keep_log
   w.now = lambda: S.now
@@ -1074,9 +1169,16 @@ def run_threaded (ctx, prog, fd_at, funcs=HANDOFF, max_points=8000, keep_log=Fal
   R.threading = TM; R.Thread = TM.Thread; R.Queue = lambda: thr.CQueue(S)
   R.select = _polling_select(thr)(S); R.time = thr.CTime(S); R.CYCLE_MAXIMUM = 1e9
   R.traceback = _QUIET
-  U.makePinger = lambda: thr.CPinger(S)
+  class Pinger (thr.CPinger):                     # a pinger with a descriptor number of its own
+    def __init__ (self_):
+      thr.CPinger.__init__(self_, S); self_.fd = w.new_fileno(self_)
+    def fileno (self_): return self_.fd
+  U.makePinger = Pinger
+  if epoll:
+    import pox.lib.epoll_select as ES
+    ES.select = VEpollModule(w, R.select.select)
   R.Scheduler.runThreaded = R.Scheduler._orig_runThreaded
-  sch = R.Scheduler(isDefaultScheduler=True, startInThread=True, threaded_selecthub=True)
+  sch = R.Scheduler(isDefaultScheduler=True, startInThread=True, threaded_selecthub=True, use_epoll=epoll)
   R.defaultScheduler = sch
   w.on_sched_thread = lambda: S.cur is not None and S.cur.obj is sch._thread
   sch._random = w.rand            # 0.0: the priority-0.5 task is never deferred in this part
@@ -1249,7 +1351,7 @@ def run_epoll_part (cfg, rep):
 
 # ---------------------------------------------------------------------------------------------------
 def run (cfg):
-  global _SPACE, _STRIDE
+  global _SPACE, _STRIDE, _EPOLL
   rep = Report(PID, "model_checking")
   suites = inline_suites(cfg)
   counts = {}
@@ -1260,7 +1362,9 @@ def run (cfg):
   if only in (None, "inline"):
     for su in suites:
       name, ops, nent, total, dev = su[:5]
-      _SPACE = ProgSpace(ops, nent, total, *su[5:])
+      opts = su[-1] if isinstance(su[-1], dict) else {}
+      _EPOLL = bool(opts.get("epoll"))
+      _SPACE = ProgSpace(ops, nent, total, *[a for a in su[5:] if not isinstance(a, dict)])
       counts[name] = len(_SPACE)
       nchunks = max(1, cfg.workers * 8)
       items = [(i, nchunks, dev, name) for i in range(nchunks)]
@@ -1346,12 +1450,12 @@ def replay (cfg, data):
     ctx = Ctx(list(data["choices"]))
     if data.get("part") == "threaded":
       funcs = data.get("funcs")
-      w = run_threaded(ctx, prog, {int(k): v for k, v in data["fd_at"].items()}, None if funcs is None else tuple(funcs))
+      w = run_threaded(ctx, prog, data["fd_at"], None if funcs is None else tuple(funcs))
       dev = [(i, t[2], t[0]) for i, t in enumerate(ctx.trace) if t[0]]
       extra = "threaded hub; schedule deviations (choice index, at, thread picked): %r" % (dev,)
     else:
-      w = run_inline_checked(ctx, prog)
-      extra = "inline hub; environment deviations: %r" % ([(l, c) for l, c in ctx.labelled() if c],)
+      w = run_inline_checked(ctx, prog, bool(data.get("epoll")))
+      extra = "inline hub%s; environment deviations: %r" % (" (epoll)" if data.get("epoll") else "", [(l, c) for l, c in ctx.labelled() if c])
   finally:
     gc.enable()
     sys.stdout, sys.stderr = old
